@@ -7,7 +7,7 @@ random tables, every output cell compared with a direct tidytcells call on that 
 before / after;  (C) multimerge on 2-4 tables with partially overlapping keys, unique or repeated inside a table (many-to-many
 join; result rows compared as a multiset with the per-key products of the extracted model).
 Only public observations decide: return values, exceptions, the caller's objects afterwards."""
-import itertools, logging, math
+import itertools, logging, math, os
 from fractions import Fraction
 import numpy as np
 import pandas as pd
@@ -150,6 +150,7 @@ def zoo(rng, quick):
     for _ in range(60 if quick else 1500):
         body = ''.join(rng.choice(AA if rng.random() < 0.8 else AA + 'BXZ*acf ') for _ in range(rng.randint(0, 18)))
         objs.append(rng.choice(['C', 'C', 'A', '', 'c']) + body + rng.choice(['F', 'W', 'C', 'A', '', 'f']))
+    objs += extra_strings(rng, quick)
     objs += [b'', b'C', b'CAF', b'\xff', b'CF']
     atoms = [None, float('nan'), pd.NA, 0, 1, -1, 67, 10 ** 30, 0.0, 1.5, -0.0, 1e300, -2.0, True, False,
              Opaque('inf'), Opaque('-inf'), Opaque('complex'), Opaque('object()')]
@@ -193,6 +194,36 @@ def zoo(rng, quick):
     return objs, n_exh
 
 
+class StrSub(str):
+    """a plain subclass of str: still a string"""
+    def __repr__(self):
+        return 'StrSub(%s)' % str.__repr__(self)
+
+
+def extra_strings(rng, quick):
+    """strings the first zoo never reached: every single character of Latin-1 (and a few beyond) alone and between the anchors,
+    each of the 20 letters in every position class, sequences long enough to cross 127/128, 255/256, 1000, 2**15 (2**16 in the thorough
+    tier) with a foreign character at the start / in the middle / at the end, and str subclasses (numpy.str_, a user subclass)"""
+    out = []
+    chars = [chr(i) for i in range(256)] + ['\u0391', '\u0421', '\uff23', '\u2102', '\u0131', '\u017f', '\u212a', '\U0001d402', '\ud800']
+    for ch in chars:                 # incl. O, U, B, J, Z, X (extended alphabets), lower case, digits, white space, look-alikes
+        out += [ch, 'C' + ch + 'F', ch + 'AF', 'CA' + ch]
+    for a in AA:
+        out += ['C' + a, a + 'C', 'C' + a + 'W', a + a]
+    lengths = [126, 127, 128, 129, 255, 256, 257, 1000, 1024, 2 ** 15, 2 ** 15 + 1] + ([] if quick else [2 ** 16, 2 ** 16 + 1, 10 ** 5])
+    for n in lengths:
+        body = ''.join(rng.choice(AA) for _ in range(n - 2))
+        good = 'C' + body + rng.choice('FWC')
+        out.append(good)
+        out.append('A' + good[1:])                       # amino acids, wrong first letter
+        out.append(good[:-1] + 'A')                      # amino acids, wrong last letter
+        for pos in (0, 1, n // 2, 127 if n > 128 else n - 3, n - 2, n - 1):
+            out.append(good[:pos] + rng.choice('XBZ*c f\n') + good[pos + 1:])
+        out.append(good + '\n')
+    out += [np.str_(''), np.str_('C'), np.str_('CAF'), np.str_('CAX'), np.str_('ACF'), StrSub(''), StrSub('CASSF'), StrSub('CASSf'), StrSub('C')]
+    return out
+
+
 def is_bool(v):
     return isinstance(v, (bool, np.bool_))
 
@@ -219,6 +250,12 @@ def check_predicates(ctx, objs, report=True):
         spec = (next(outs), next(outs)) if isinstance(o, str) else None
         cls = type(o).__name__
         ctx.count('object:' + cls)
+        if isinstance(o, str):
+            ctx.count('string:' + ('length 1' if len(o) == 1 else 'length >= 126' if len(o) >= 126 else 'other length'))
+            if len(o) >= 2 ** 15:
+                ctx.count('string:length >= 2**15')
+            if type(o) is not str:
+                ctx.count('string:str subclass (%s)' % cls)
         for name, f, model, sp in (('isvalidaa', io.isvalidaa, m_aa, spec[0] if spec else None),
                                    ('isvalidcdr3', io.isvalidcdr3, m_cdr3, spec[1] if spec else None)):
             impl = call_impl(f, realise(o))
@@ -246,10 +283,193 @@ def check_predicates(ctx, objs, report=True):
                 ctx.violation(bad[0], bad[1], replay, site=site)
         if m_orig in (2, 3, 4):
             ctx.count('objects on which the pre-repair model raises')
-        if k % 23 == 0 and len(ctx.vm_cases) < (30 if ctx.quick else 200):
+        if k % 23 == 0 and len(ctx.vm_cases) < (30 if ctx.quick else 200) and all(len(x[2]) <= 40 for x in t):
             ctx.add_vm('api_c18_isvalidaa', [t], m_aa)
             ctx.add_vm('api_c18_isvalidcdr3', [t], m_cdr3)
     return len(ctx.violations) - before
+
+
+# --------------------------------------------------------------------- objects outside the modelled universe
+def outside_objects():
+    """name -> (factory, class) for Python objects the Coq universe does not contain.  Only what the property text says about ANY
+    object is demanded of them: the call returns a bool and does not raise; numbers and missing values give False; a str (subclass)
+    follows the string specification.  class: 'number' | 'missing' | 'other'.  (Objects whose own __iter__ / __len__ / __getitem__ /
+    __eq__ raise something other than TypeError / IndexError / KeyError are left out: see NOTES.md.)"""
+    import decimal, fractions, collections, array, datetime
+    tab = {
+        'np.int64(3)': (lambda: np.int64(3), 'number'), 'np.int8(-1)': (lambda: np.int8(-1), 'number'),
+        'np.uint8(67)': (lambda: np.uint8(67), 'number'), 'np.uint64(2**63)': (lambda: np.uint64(2 ** 63), 'number'),
+        'np.float32(1.5)': (lambda: np.float32(1.5), 'number'), 'np.float16(0)': (lambda: np.float16(0), 'number'),
+        'np.float64(2.0)': (lambda: np.float64(2.0), 'number'), 'np.float64(inf)': (lambda: np.float64('inf'), 'number'),
+        'np.float64(nan)': (lambda: np.float64('nan'), 'missing'), 'np.float32(nan)': (lambda: np.float32('nan'), 'missing'),
+        'np.bool_(True)': (lambda: np.bool_(True), 'number'), 'np.bool_(False)': (lambda: np.bool_(False), 'number'),
+        'np.complex128(1)': (lambda: np.complex128(1), 'number'), 'complex(0)': (lambda: 0j, 'number'),
+        'Decimal(1)': (lambda: decimal.Decimal(1), 'number'), 'Decimal(NaN)': (lambda: decimal.Decimal('NaN'), 'missing'),
+        'Fraction(1,2)': (lambda: fractions.Fraction(1, 2), 'number'),
+        'pd.NaT': (lambda: pd.NaT, 'missing'), 'np.datetime64(NaT)': (lambda: np.datetime64('NaT'), 'missing'),
+        'np.timedelta64(NaT)': (lambda: np.timedelta64('NaT'), 'missing'),
+        'np.array([])': (lambda: np.array([]), 'other'), "np.array(['C','A','F'])": (lambda: np.array(['C', 'A', 'F']), 'other'),
+        "np.array(['C','X'])": (lambda: np.array(['C', 'X']), 'other'), "np.array([['C']])": (lambda: np.array([['C']]), 'other'),
+        "np.array('CAF')": (lambda: np.array('CAF'), 'other'), 'np.array([1,2])': (lambda: np.array([1, 2]), 'other'),
+        "np.array(['CA','F'])": (lambda: np.array(['CA', 'F']), 'other'),
+        "np.array(['C','A','F'],object)": (lambda: np.array(['C', 'A', 'F'], dtype=object), 'other'),
+        "np.array(['C',None],object)": (lambda: np.array(['C', None], dtype=object), 'other'),
+        "np.array([[], []],object)": (lambda: np.empty((2, 0), dtype=object), 'other'),
+        "pd.Series(['C','F'])": (lambda: pd.Series(['C', 'F']), 'other'),
+        "pd.Series(['C','F'],index=[0,-1])": (lambda: pd.Series(['C', 'F'], index=[0, -1]), 'other'),
+        "pd.Series(['C','A','F'],index=list('xyz'))": (lambda: pd.Series(['C', 'A', 'F'], index=list('xyz')), 'other'),
+        "pd.Series(['C',None])": (lambda: pd.Series(['C', None], dtype=object), 'other'),
+        'pd.Series([])': (lambda: pd.Series([], dtype=object), 'other'), "pd.Index(['C','F'])": (lambda: pd.Index(['C', 'F']), 'other'),
+        "pd.DataFrame({'C':[1]})": (lambda: pd.DataFrame({'C': [1]}), 'other'), 'pd.DataFrame()': (lambda: pd.DataFrame(), 'other'),
+        "pd.Categorical(['C','F'])": (lambda: pd.Categorical(['C', 'F']), 'other'),
+        "pd.array(['C',None],'string')": (lambda: pd.array(['C', None], dtype='string'), 'other'),
+        'range(3)': (lambda: range(3), 'other'), 'range(0)': (lambda: range(0), 'other'),
+        "bytearray(b'CAF')": (lambda: bytearray(b'CAF'), 'other'), 'bytearray()': (lambda: bytearray(), 'other'),
+        "memoryview(b'CAF')": (lambda: memoryview(b'CAF'), 'other'), "array('u','CAF')": (lambda: array.array('u', 'CAF'), 'other'),
+        "array('b')": (lambda: array.array('b'), 'other'), "np.bytes_(b'CAF')": (lambda: np.bytes_(b'CAF'), 'other'),
+        "deque(['C','F'])": (lambda: collections.deque(['C', 'F']), 'other'), 'deque()': (lambda: collections.deque(), 'other'),
+        "OrderedDict(C=1)": (lambda: collections.OrderedDict(C=1), 'other'), "Counter('CAF')": (lambda: collections.Counter('CAF'), 'other'),
+        'defaultdict(list)': (lambda: collections.defaultdict(list), 'other'),
+        "defaultdict(str,{0:'C'})": (lambda: collections.defaultdict(str, {0: 'C'}), 'other'),
+        "UserString('CAF')": (lambda: collections.UserString('CAF'), 'other'), "UserList(['C','F'])": (lambda: collections.UserList(['C', 'F']), 'other'),
+        "UserDict({'C':1})": (lambda: collections.UserDict({'C': 1}), 'other'), "ChainMap({'C':1})": (lambda: collections.ChainMap({'C': 1}), 'other'),
+        "iter('CAF')": (lambda: iter('CAF'), 'other'), "map(str,'CAF')": (lambda: map(str, 'CAF'), 'other'),
+        "zip('CA','AF')": (lambda: zip('CA', 'AF'), 'other'), "enumerate('CF')": (lambda: enumerate('CF'), 'other'),
+        "reversed('FAC')": (lambda: reversed('FAC'), 'other'), "{'C':1}.keys()": (lambda: {'C': 1}.keys(), 'other'),
+        "{'C':1}.values()": (lambda: {'C': 1}.values(), 'other'), "{'C':1}.items()": (lambda: {'C': 1}.items(), 'other'),
+        'date(2020,1,1)': (lambda: datetime.date(2020, 1, 1), 'other'), 'pd.Timestamp(0)': (lambda: pd.Timestamp(0), 'other'),
+        'Ellipsis': (lambda: Ellipsis, 'other'), 'NotImplemented': (lambda: NotImplemented, 'other'), 'type': (lambda: type, 'other'),
+        'str': (lambda: str, 'other'), 'len': (lambda: len, 'other'), 'lambda': (lambda: (lambda x: x), 'other'),
+        'slice(1)': (lambda: slice(1), 'other'), 'module': (lambda: math, 'other'), 'Exception()': (lambda: Exception('C'), 'other'),
+    }
+    return tab
+
+
+def check_outside(ctx, only=None):
+    """both predicates on every object of outside_objects(); twice each (a second call on a fresh object must answer alike)"""
+    import pyrepseq.io as io
+    n = 0
+    for name, (make, cls) in sorted(outside_objects().items()):
+        if only is not None and name != only:
+            continue
+        for fname, f in (('isvalidaa', io.isvalidaa), ('isvalidcdr3', io.isvalidcdr3)):
+            try:
+                o1, o2 = make(), make()
+            except Exception:
+                continue                          # e.g. array('u') gone from a later Python: nothing to test
+            first, second = call_impl(f, o1), call_impl(f, o2)
+            ctx.case(nontrivial_key=('outside', fname, name))
+            ctx.count('outside universe:' + cls)
+            bad = None
+            for impl in (first, second):
+                if impl[0] == 'exc':
+                    bad = '%s(%s) raised %s; the property demands a bool for every object' % (fname, name, impl[1])
+                elif not is_bool(impl[1]):
+                    bad = '%s(%s) returned %r which is not a bool' % (fname, name, impl[1])
+                elif cls in ('number', 'missing') and bool(impl[1]):
+                    bad = '%s(%s) = True for a %s' % (fname, name, 'number' if cls == 'number' else 'missing value')
+            if bad is None and bool(first[1]) != bool(second[1]):
+                bad = '%s(%s) answers %s and then %s on two equal fresh objects' % (fname, name, first[1], second[1])
+            if bad and n < 3:
+                n += 1
+                ctx.violation('property', bad, dict(kind='predicate_outside', func=fname, obj=name), site='io.%s:outside' % fname)
+    return n
+
+
+# --------------------------------------------------------------------- one object, several calls
+def gen_history(rng):
+    """a mutable container and the states it is put through IN PLACE between calls; every state is in the modelled universe"""
+    kind = rng.choice(['list', 'list', 'dict', 'set'])
+    letters = ['C', 'A', 'F', 'W', 'X', 'c', '', 'CA', 1, None]
+    if kind == 'list':
+        state = [rng.choice(letters[:6]) for _ in range(rng.randint(0, 4))]
+    elif kind == 'dict':
+        state = {k: rng.randint(0, 2) for k in rng.sample(['C', 'A', 'F', 'X', 0, -1], rng.randint(0, 3))}
+    else:
+        state = set(rng.sample(letters[:6], rng.randint(0, 3)))
+    steps = []
+    for _ in range(rng.randint(2, 5)):
+        if kind == 'list':
+            op = rng.choice(['append', 'append', 'pop', 'set', 'insert0', 'clear', 'same'])
+            if op == 'append':
+                steps.append(('append', rng.choice(letters)))
+            elif op == 'insert0':
+                steps.append(('insert0', rng.choice(letters[:6])))
+            elif op == 'set':
+                steps.append(('set', rng.choice([0, -1]), rng.choice(letters[:6])))
+            else:
+                steps.append((op,))
+        elif kind == 'dict':
+            op = rng.choice(['put', 'put', 'del', 'clear', 'same'])
+            steps.append(('put', rng.choice(['C', 'A', 'F', 'X', 0, -1]), rng.choice(['C', 'F', 'X', 1])) if op == 'put' else (op,))
+        else:
+            op = rng.choice(['add', 'add', 'discard', 'clear', 'same'])
+            steps.append((op, rng.choice(letters[:6])) if op in ('add', 'discard') else (op,))
+    return dict(kind=kind, start=sorted(state, key=repr) if kind == 'set' else (list(state.items()) if kind == 'dict' else state), steps=steps)
+
+
+def apply_step(obj, step):
+    op = step[0]
+    try:
+        if op == 'append':
+            obj.append(step[1])
+        elif op == 'insert0':
+            obj.insert(0, step[1])
+        elif op == 'set':
+            obj[step[1]] = step[2]
+        elif op == 'pop':
+            obj.pop()
+        elif op == 'clear':
+            obj.clear()
+        elif op == 'put':
+            obj[step[1]] = step[2]
+        elif op == 'del':
+            del obj[next(iter(obj))]
+        elif op == 'add':
+            obj.add(step[1])
+        elif op == 'discard':
+            obj.discard(step[1])
+    except (IndexError, KeyError, StopIteration):
+        pass
+
+
+def check_histories(ctx, hists):
+    """the SAME container object handed to the predicates again and again while the caller changes it in place: every answer must be
+    the model's answer for the state at that moment (an answer remembered per object identity would be stale)"""
+    import pyrepseq.io as io
+    import copy
+    runs = []
+    for h in hists:
+        obj = {'list': list, 'dict': lambda x: dict([tuple(kv) for kv in x]), 'set': set}[h['kind']](h['start'])
+        states = []
+        for step in [('same',)] + [tuple(x) for x in h['steps']]:
+            apply_step(obj, step)
+            got = [call_impl(io.isvalidaa, obj), call_impl(io.isvalidcdr3, obj)]
+            states.append((copy.copy(obj), got))
+        runs.append((h, states))
+    reqs = []
+    for h, states in runs:
+        for snap, _ in states:
+            t = tokens(snap)
+            reqs += [('api_c18_isvalidaa', [t]), ('api_c18_isvalidcdr3', [t])]
+    outs = iter(ctx.oracle.run_parallel(reqs))
+    n = 0
+    for h, states in runs:
+        ctx.count('history:%s changed in place between calls' % h['kind'])
+        for i, (snap, got) in enumerate(states):
+            for fname, impl in zip(('isvalidaa', 'isvalidcdr3'), got):
+                model = next(outs)
+                ctx.case(nontrivial_key=('history', repr(h), i, fname) if i else None)
+                ok = impl[0] == 'ok' and is_bool(impl[1]) and model in (0, 1) and bool(impl[1]) == bool(model)
+                if not ok and n < 3:
+                    n += 1
+                    kind = 'property' if (impl[0] != 'ok' or not is_bool(impl[1])) else 'correspondence'
+                    # a wrong answer for an object that was answered correctly when fresh is a stale answer
+                    ctx.violation(kind, '%s on one %s object changed in place by the caller: call %d sees %s and gives %s, the model gives %s '
+                                  '(start %r, steps %r)' % (fname, h['kind'], i + 1, describe(snap), impl, CODE.get(model, model),
+                                                           h['start'], h['steps'][:i]),
+                                  dict(kind='predicate_history', history=h), site='io.%s:history' % fname)
+    return n
 
 
 # ===================================================================== (B) standardize_dataframe
@@ -261,7 +481,17 @@ POOL = {
         'b2m', 'HLA-A*02', 'HLA-B*08:01', '', 'DRB1*15:01'],
     3: ['GILGFVFTL', 'gilg', 'GILX', '', 'FLKEKGGL', 'not an epitope', 'LQPFPQPELPYPQPQ', 'YMPYFFTLL'],
 }
-EXTRA_NAMES = ['clone_count', 'trbv', 'CDR3', 'TRBV ', 'note', 'Epitope2', 'freq', 'MHC']
+POOL[0] += ['CASS' + 'GQSGANVLT' * 16 + 'F', 'cass' + 'lgqsg' * 52 + 'f', 'CASSLGQSGANVLTW', 'ASSLGQSGANVLT']      # 149 / 266 residues
+POOL[1] += ['TRBV13-2', 'TRAV14D-1', 'TRAV6-5', 'TRBJ2-7', 'TRAV8-5', 'TRBV21-1', 'TRAJ1', 'TRBV12-1', 'TRAV14/DV4', 'trav14d-3/dv8*01',
+            'TRBJ2-2P', 'TRAJ58']
+POOL[2] += ['H2-Db', 'H2-IAb', 'H2-Eb1', 'HLA-DRB1*15:01:01:01', 'HLA-A*24:02:01', 'HLA-B8', 'DQA1*05:01', 'Mamu-A1*001']
+POOL[3] += ['flkekggl', 'GILGFVFTL' * 15, 'SIINFEKL', 'siinfekl ', 'NLVPMVATV']
+EXTRA_NAMES = ['clone_count', 'trbv', 'CDR3', 'TRBV ', 'note', 'Epitope2', 'freq', 'MHC', 'cdr3b', 'Trav', 'EPITOPE', 'mhca', 'TRBD', 'TRGV',
+               'CDR3C', ' TRAJ', 'TRBV_', 'Epitope ', 7, 0]
+# the documented defaults (docstring 'Parameters'): what an omitted option must mean
+DEFAULTS = dict(species='HomoSapiens', tcr_enforce_functional=True, tcr_precision='gene', mhc_precision='gene',
+                strict_cdr3_standardization=False)
+OPT_ORDER = ['species', 'tcr_enforce_functional', 'tcr_precision', 'mhc_precision', 'strict_cdr3_standardization']   # positional order after `standardize`
 
 
 def missing(x):
@@ -302,12 +532,13 @@ def tt_cell(kind, s, opt):
     return tt.aa.standardize(seq=s, on_fail='keep', suppress_warnings=True)
 
 
-def gen_table(rng, big):
-    nrows = rng.choice([0, 1, 1, 2, 3, 4, 6, 9] if not big else [5, 9, 14, 25])
-    std = rng.sample(sorted(STD), rng.randint(0, len(STD)))
+def gen_table(rng, big, huge=0):
+    nrows = huge or rng.choice([0, 1, 1, 2, 3, 4, 6, 9] if not big else [5, 9, 14, 25])
+    std = rng.sample(sorted(STD), rng.randint(0, len(STD)) if not huge else rng.randint(3, 6))
     mapper = {}
     cols = {}
     order = []
+    dtypes = {}
     for c in std:
         name = c
         r = rng.random()
@@ -323,58 +554,188 @@ def gen_table(rng, big):
             cells = [rng.choice([None, np.nan])] * nrows      # a column that is missing throughout
         cols[name] = cells
         order.append(name)
-    for name in rng.sample(EXTRA_NAMES, rng.randint(0, 3)):
-        kind = rng.choice(['int', 'float', 'str'])
+        # how the column is stored: pandas' inference (str in pandas 3), genuine Python objects (None / nan / pd.NA kept apart),
+        # the nullable string type, a categorical
+        dtypes[name] = rng.choice([None, None, 'object', 'object', 'string', 'category'])
+    extras = rng.sample(range(len(EXTRA_NAMES)), rng.randint(0, 3))
+    for name in [EXTRA_NAMES[i] for i in extras]:
+        kind = rng.choice(['int', 'float', 'str', 'bool', 'cat'])
         if kind == 'int':
             cols[name] = [rng.randint(0, 50) for _ in range(nrows)]
         elif kind == 'float':
             cols[name] = [rng.choice([np.nan, 0.5, 2.0, 1e-3]) for _ in range(nrows)]
+        elif kind == 'bool':
+            cols[name] = [rng.random() < 0.5 for _ in range(nrows)]
         else:
-            cols[name] = [rng.choice([None, 'TRBV13*01', 'cassf', 'a2', 'text']) for _ in range(nrows)]
+            cols[name] = [rng.choice([None, 'TRBV13*01', 'cassf', 'a2', 'text', 'bv13*1', 'gilg']) for _ in range(nrows)]
+            if kind == 'cat':
+                dtypes[name] = 'category'
         order.append(name)
-    if rng.random() < 0.15:
-        away = [c for c in order if c in STD]
+    r = rng.random()
+    away = [c for c in order if c in STD]
+    if r < 0.15:
         if away:                          # a standard column renamed away: it is no longer standard
             mapper[away[0]] = 'old_' + away[0]
+    elif r < 0.25 and len(away) >= 2:     # two standard columns exchanged by the mapper (names stay unique)
+        a, b = rng.sample(away, 2)
+        mapper[a], mapper[b] = b, a
+    elif r < 0.32 and away:               # a standard column renamed onto another standard name that is free
+        free = [c for c in sorted(STD) if c not in order and c not in mapper.values()]
+        if free:
+            mapper[away[0]] = rng.choice(free)
     if rng.random() < 0.2:
         mapper['absent_column'] = 'unused'     # a mapper key that names no column is ignored by pandas
+    if rng.random() < 0.1:                     # ... also when it points at a standard name (one that is free, so names stay unique)
+        free = [c for c in sorted(STD) if c not in order and c not in mapper.values()]
+        if free:
+            mapper['absent2'] = rng.choice(free)
     rng.shuffle(order)
-    ik = rng.choice(['range', 'ints', 'strs', 'dup', 'named'])
+    ik = rng.choice(['range', 'ints', 'strs', 'dup', 'named', 'multi', 'withnan'])
     if ik == 'range':
         index = None
     elif ik == 'ints':
-        index = rng.sample(range(100), nrows)
+        index = rng.sample(range(max(100, 2 * nrows)), nrows)
     elif ik == 'strs':
-        index = ['r%d' % i for i in rng.sample(range(100), nrows)]
+        index = ['r%d' % i for i in rng.sample(range(max(100, 2 * nrows)), nrows)]
     elif ik == 'dup':
         index = [rng.choice([5, 7]) for _ in range(nrows)]
+    elif ik == 'multi':
+        index = [[rng.choice(['d1', 'd2', 'd3']), rng.randint(0, 3)] for _ in range(nrows)]      # (donor, cell) pairs, repeats allowed
+    elif ik == 'withnan':
+        index = [rng.choice([None, 'a', 'b', 'c']) for _ in range(nrows)]                        # labels that are missing / repeated
     else:
         index = list(range(10, 10 + nrows))
-    opt = dict(species=rng.choice(['HomoSapiens', 'HomoSapiens', 'MusMusculus']),
+    species = rng.choice(['HomoSapiens', 'HomoSapiens', 'MusMusculus', 'MusMusculus'] + (['homosapiens', 'musmusculus'] if rng.random() < 0.3 else []))
+    opt = dict(species=species,
                tcr_enforce_functional=rng.random() < 0.5, tcr_precision=rng.choice(['gene', 'allele']),
                mhc_precision=rng.choice(['gene', 'protein', 'allele']),
                strict_cdr3_standardization=rng.random() < 0.5)
     flag = rng.random() < 0.85
     use_mapper = mapper if (mapper or rng.random() < 0.5) else None
-    return dict(columns=[[c, cols[c]] for c in order], index=index, index_kind=ik, mapper=use_mapper, opt=opt, standardize=flag)
+    # ---- how the call is made: options left out (the documented default applies), handed by position, df by keyword / as df_old,
+    # warnings not suppressed (the default), the mapper as some other Mapping
+    omit = []
+    r = rng.random()
+    if r < 0.12:
+        omit = list(OPT_ORDER) + ['standardize']                 # the bare call of the docstring examples
+    elif r < 0.45:
+        omit = [o for o in OPT_ORDER + ['standardize'] if rng.random() < 0.4]
+    for o in omit:
+        if o == 'standardize':
+            flag = True
+        else:
+            opt[o] = DEFAULTS[o]
+    style = rng.choice(['kw', 'kw', 'kw', 'positional', 'df_kw', 'df_old'])
+    npos = rng.randint(1, 7) if style == 'positional' else 0     # how many arguments after df go by position
+    call = dict(style=style, npos=npos, omit=omit, suppress=rng.choice(['true', 'true', 'false', 'omit']),
+                mapper_kind=rng.choice(['dict', 'dict', 'proxy', 'ordered', 'mapping', 'userdict', 'series']) if use_mapper else 'dict',
+                mapper_omitted=(use_mapper is None and rng.random() < 0.5))
+    return dict(columns=[[c, cols[c]] for c in order], index=index, index_kind=ik, mapper=use_mapper, opt=opt, standardize=flag,
+                dtypes=[dtypes.get(c) for c in order], call=call)
+
+
+class PlainMapping:
+    """the smallest thing collections.abc.Mapping accepts (neither a dict nor a subclass of one)"""
+    def __init__(self, d):
+        self._d = dict(d)
+
+    def __getitem__(self, k):
+        return self._d[k]
+
+    def __iter__(self):
+        return iter(self._d)
+
+    def __len__(self):
+        return len(self._d)
+
+
+def make_mapper(mapper, kind):
+    import types, collections
+    from collections.abc import Mapping
+    if mapper is None or kind in (None, 'dict'):
+        return mapper
+    if kind == 'proxy':
+        return types.MappingProxyType(dict(mapper))
+    if kind == 'ordered':
+        return collections.OrderedDict(mapper)
+    if kind == 'userdict':
+        return collections.UserDict(mapper)
+    if kind == 'series':
+        return pd.Series(dict(mapper), dtype=object)
+    cls = type('PlainMappingABC', (PlainMapping, Mapping), {})
+    return cls(mapper)
 
 
 def build_frame(case):
-    data = {c: list(v) for c, v in case['columns']}
-    df = pd.DataFrame(data, columns=[c for c, _ in case['columns']],
-                      index=case['index'] if case['index'] is not None else None)
-    if case.get('index_kind') == 'named':
+    dts = case.get('dtypes') or [None] * len(case['columns'])
+    ik = case.get('index_kind')
+    if case['index'] is None:
+        index = None
+    elif ik == 'multi':
+        index = pd.MultiIndex.from_tuples([tuple(x) for x in case['index']], names=['donor', 'cell']) if case['index'] else \
+            pd.MultiIndex.from_arrays([[], []], names=['donor', 'cell'])
+    elif ik == 'withnan':
+        index = pd.Index(list(case['index']), dtype=object)
+    else:
+        index = case['index']
+    data = {}
+    for (c, v), dt in zip(case['columns'], dts):
+        if dt == 'object':                 # genuine Python objects: None, nan and pd.NA stay what they are
+            data[c] = pd.Series(list(v), dtype=object)
+        elif dt == 'string':
+            data[c] = pd.Series(pd.array([None if missing(x) else x for x in v], dtype='string'))
+        elif dt == 'category':
+            data[c] = pd.Series(pd.Categorical([None if missing(x) else x for x in v]))
+        else:
+            data[c] = pd.Series(list(v)) if len(v) else pd.Series(list(v), dtype=object)
+    if data:
+        df = pd.DataFrame(data, columns=[c for c, _ in case['columns']])
+        if index is not None:
+            df.index = index
+    else:
+        df = pd.DataFrame(index=index)
+    if ik == 'named':
         df.index.name = 'row_id'
     return df
 
 
-def run_standardize(case, io):
-    df = build_frame(case)
+def call_standardize(case, io, df):
+    """one call of standardize_dataframe as the case prescribes it (case['call']; a case without it = every option by keyword)"""
+    call = case.get('call') or {}
+    omit = set(call.get('omit') or [])
+    mapper = make_mapper(case['mapper'], call.get('mapper_kind'))
+    named = [('col_mapper', mapper), ('standardize', case['standardize'])] + [(o, case['opt'][o]) for o in OPT_ORDER]
+    sup = call.get('suppress', 'true')
+    if sup != 'omit':
+        named.append(('suppress_warnings', sup == 'true'))
+    style = call.get('style', 'kw')
+    args, kw = [], {}
+    if style == 'positional':
+        args = [df]
+        npos = call.get('npos', 0)
+        for i, (k, v) in enumerate(named):
+            if i < npos:
+                args.append(v)            # a positional slot cannot be left out: the value the case states is handed over
+            elif k not in omit and not (k == 'col_mapper' and call.get('mapper_omitted')):
+                kw[k] = v
+    else:
+        if style == 'df_kw':
+            kw['df'] = df
+        elif style == 'df_old':
+            kw['df_old'] = df
+        else:
+            args = [df]
+        for k, v in named:
+            if k not in omit and not (k == 'col_mapper' and call.get('mapper_omitted') and v is None):
+                kw[k] = v
+    return call_impl(io.standardize_dataframe, *args, **kw)
+
+
+def run_standardize(case, io, df=None):
+    df = build_frame(case) if df is None else df
     before = canon_frame(df)
     dtypes_before = [str(t) for t in df.dtypes]
-    kw = dict(case['opt'])
-    kw['suppress_warnings'] = True
-    impl = call_impl(io.standardize_dataframe, df, col_mapper=case['mapper'], standardize=case['standardize'], **kw)
+    impl = call_standardize(case, io, df)
     after = canon_frame(df)
     dtypes_after = [str(t) for t in df.dtypes]
     return df, before, after, dtypes_before == dtypes_after, impl
@@ -403,9 +764,9 @@ def expected_cells(case, before):
     return names, exp, ftab
 
 
-def std_violations(case, io):
-    """list of (kind, message) for one case; [] when the property holds on it"""
-    df, before, after, dt_same, impl = run_standardize(case, io)
+def std_violations(case, io, df=None):
+    """list of (kind, message) for one case; [] when the property holds on it (df: a frame built earlier, handed over again)"""
+    df, before, after, dt_same, impl = run_standardize(case, io, df)
     out = []
     if before != after or not dt_same:
         out.append(('property', 'standardize_dataframe modified the caller\'s table'))
@@ -434,7 +795,7 @@ def std_violations(case, io):
                                 (i, n, before['cells'][j][i], g, e, what)))
                     break
     if not case['standardize'] and not out:
-        ref = df.rename(columns=case['mapper']) if case['mapper'] is not None else df
+        ref = df.rename(columns=dict(case['mapper'])) if case['mapper'] is not None else df
         if not res.equals(ref):
             out.append(('property', 'standardize=False: result differs from the renamed input (DataFrame.equals)'))
     return out, before, (got, names, ftab)
@@ -443,16 +804,17 @@ def std_violations(case, io):
 def shrink_std(case, io):
     """cell-locality makes a one-column one-row table the natural minimal input; keep it only if it still fails"""
     best = case
-    for c, cells in case['columns']:
+    dts = case.get('dtypes') or [None] * len(case['columns'])
+    for jc, (c, cells) in enumerate(case['columns']):
         for i in range(len(cells)):
-            small = dict(case, columns=[[c, [cells[i]]]], index=None, index_kind='range')
+            small = dict(case, columns=[[c, [cells[i]]]], index=None, index_kind='range', dtypes=[dts[jc]])
             try:
                 if any(k == 'property' for k, _ in std_violations(small, io)[0]):
                     return small
             except Exception:
                 pass
-    for c, cells in case['columns']:
-        small = dict(case, columns=[[c, cells]])
+    for jc, (c, cells) in enumerate(case['columns']):
+        small = dict(case, columns=[[c, cells]], dtypes=[dts[jc]])
         try:
             if any(k == 'property' for k, _ in std_violations(small, io)[0]):
                 return small
@@ -471,6 +833,8 @@ def check_standardize(ctx, ncases):
     import pyrepseq.io as io
     rng = ctx.rng
     cases = [gen_table(rng, big=(k % 25 == 24)) for k in range(ncases)]
+    # tables long enough to cross any block size a reimplementation might introduce (one in the quick tier)
+    cases += [gen_table(rng, big=True, huge=h) for h in ([1100] if ctx.quick else [255, 256, 1000, 1024, 4097, 2 ** 15 + 1])]
     # the docstring example
     doc = [["av26.1*1", "CIVRAPGRADMRF", "aj43*1", "bv13*1", "CASSYLPGQGDHYSNQPQHF", "bj1.5*1", "FLKEKGGL", "b8", "b2m"],
            ["TCRAV20*01", "CAVPSGAGSYQLTF", "TCRAJ28*01", "TCRBV28S1*01", "CASSLGQSGANVLTF", "TCRBJ2S6*01", "LQPFPQPELPYPQPQ", "HLA-DQA1*05", "HLA-DQB1*02"],
@@ -497,6 +861,20 @@ def check_standardize(ctx, ncases):
         ctx.count('table:standardize=%s' % case['standardize'])
         ctx.count('table:index=%s' % case['index_kind'])
         ctx.count('table:species=%s' % case['opt']['species'])
+        call = case.get('call') or {}
+        ctx.count('table:call style=%s' % call.get('style', 'kw'))
+        ctx.count('table:suppress_warnings=%s' % call.get('suppress', 'true'))
+        ctx.count('table:options omitted=%d' % len(call.get('omit') or []))
+        if 'standardize' in (call.get('omit') or []):
+            ctx.count('table:standardize omitted')
+        if case['mapper']:
+            ctx.count('table:mapper kind=%s' % call.get('mapper_kind', 'dict'))
+            if any(v in STD and k in STD for k, v in case['mapper'].items()):
+                ctx.count('table:mapper sends a standard name to a standard name')
+        for dt in set(d for (c, _), d in zip(case['columns'], case.get('dtypes') or []) if mapper.get(c, c) in STD):
+            ctx.count('table:standard column stored as %s' % (dt or 'inferred'))
+        if len(before['index']) >= 255:
+            ctx.count('table:255 rows or more')
         if viols and nviol < 3:
             nviol += 1
             small = shrink_std(case, io)
@@ -533,23 +911,93 @@ def check_standardize(ctx, ncases):
                       dict(kind='std_columns', code=sorted(model_cols.items())), site='io.standardize_dataframe:columns')
 
 
+def gen_sequence(rng):
+    """2-4 calls on ONE frame object: other options / call styles each time, and between the calls the caller overwrites a few cells
+    of the standard columns in place.  Each step is a complete case (the content of the frame at that moment)."""
+    base = gen_table(rng, big=False)
+    while not base['columns'] or not base['columns'][0][1]:
+        base = gen_table(rng, big=rng.random() < 0.3)
+    mapper = base['mapper'] or {}
+    steps = [base]
+    for _ in range(rng.randint(1, 3)):
+        other = gen_table(rng, big=False)
+        cols = [[c, list(v)] for c, v in steps[-1]['columns']]
+        if rng.random() < 0.6:
+            for _ in range(rng.randint(1, 3)):
+                j = rng.randrange(len(cols))
+                name = mapper.get(cols[j][0], cols[j][0])
+                holds_text = base['dtypes'][j] in ('object', 'string') or any(isinstance(x, str) for x in base['columns'][j][1])
+                if name in STD and base['dtypes'][j] != 'category' and holds_text:     # (an all-missing inferred column is float64)
+                    i = rng.randrange(len(cols[j][1]))
+                    cols[j][1][i] = rng.choice(POOL[STD[name]] + [None])
+        same = rng.random() < 0.25             # the very same call once more
+        steps.append(dict(base, columns=cols, opt=steps[-1]['opt'] if same else other['opt'],
+                          standardize=steps[-1]['standardize'] if same else other['standardize'],
+                          call=dict(other['call'], mapper_kind=base['call']['mapper_kind'], mapper_omitted=base['call']['mapper_omitted'])))
+        for o in steps[-1]['call']['omit']:
+            if o == 'standardize':
+                steps[-1]['standardize'] = True
+            else:
+                steps[-1]['opt'] = dict(steps[-1]['opt'], **{o: DEFAULTS[o]})
+    return steps
+
+
+def run_sequence(steps, io):
+    """-> (step number, violations) of the first failing step, or None"""
+    df = build_frame(steps[0])
+    for n, case in enumerate(steps):
+        if n:
+            for j, ((_, old), (_, new)) in enumerate(zip(steps[n - 1]['columns'], case['columns'])):
+                for i, (a, b) in enumerate(zip(old, new)):
+                    if canon_cell(a) != canon_cell(b):
+                        df.iat[i, j] = None if missing(b) else b
+        viols = std_violations(case, io, df=df)[0]
+        if viols:
+            return n, viols
+    return None
+
+
+def check_sequences(ctx, seqs):
+    import pyrepseq.io as io
+    nviol = 0
+    for steps in seqs:
+        ctx.count('table sequence:%d calls on one frame' % len(steps))
+        if any(jsonable_case(a)['columns'] != jsonable_case(b)['columns'] for a, b in zip(steps, steps[1:])):
+            ctx.count('table sequence:cells overwritten in place between calls')
+        ctx.case(nontrivial_key=('seq', repr([jsonable_case(c) for c in steps])))
+        bad = run_sequence(steps, io)
+        if bad and nviol < 3:
+            nviol += 1
+            n, viols = bad
+            ctx.violation('property', 'standardize_dataframe, call %d of %d on the same frame object (options %s, standardize=%s): %s' %
+                          (n + 1, len(steps), steps[n]['opt'], steps[n]['standardize'], '; '.join(m for _, m in viols[:3])),
+                          dict(kind='standardize_seq', steps=[jsonable_case(c) for c in steps[:n + 1]]), site='io.standardize_dataframe:sequence')
+    return nviol
+
+
 # ===================================================================== (C) multimerge
 def gen_merge(rng):
-    """2-4 tables with partially overlapping keys.  A key may occur more than once inside a table (many-to-many join):
+    """1-6 tables with partially overlapping keys.  A key may occur more than once inside a table (many-to-many join):
     `keymode` unique = every table has unique keys; repeated = keys drawn with replacement; shared = a later table may
     re-use an earlier table's key list verbatim or shuffled (identical indexes, where an alignment and a join differ only
-    when a key repeats)."""
-    nt = rng.randint(2, 4)
+    when a key repeats).  Beyond the tables themselves the case says HOW the call is made: the container of the tables (list, tuple,
+    iterator, dict view), positional or keyword arguments, the container of the suffixes, an empty suffix list (= none given),
+    further pd.merge keywords (how = outer / inner / left / right, sort), a second call on the same table objects."""
+    nt = rng.choice([1, 2, 2, 2, 3, 3, 3, 4, 4, 4, 5, 6])
     intkeys = rng.random() < 0.4
     pool = [1, 2, 3, 5, 8, 13] if intkeys else ['a', 'b', 'c', 'd', 'e', 'f']
-    suffixes = None if rng.random() < 0.5 else rng.sample(['1', '2', 'x', 'left', 'B', 'tcr'], nt)
-    keymode = rng.choice(['unique', 'unique', 'repeated', 'repeated', 'shared'])
+    sufpool = ['1', '2', 'x', 'left', 'B', 'tcr', 'y', 'R']
+    suffixes = None if rng.random() < 0.5 else rng.sample(sufpool, nt)
+    keymode = rng.choice(['unique', 'unique', 'repeated', 'repeated', 'shared']) if nt <= 4 else 'unique'
     # tables that share a value-column name although no suffixes are given (two or three count tables merged as they are): the join
     # is still demanded; how the clashing names are told apart is pandas' business, so only the stem of each name is compared
-    overlap = suffixes is None and nt <= 3 and rng.random() < 0.35
+    overlap = suffixes is None and 2 <= nt <= 3 and rng.random() < 0.35
+    on = rng.choice(['index', 'k', 'k', 'clonotype'])
     tables = []
     for t in range(nt):
-        if keymode == 'unique':
+        if rng.random() < 0.05 and nt > 1:
+            ks = []                                   # a table without rows
+        elif keymode == 'unique':
             ks = rng.sample(pool, rng.randint(1, 5))
         elif keymode == 'shared' and tables and rng.random() < 0.7:
             ks = list(rng.choice(tables)['keys'])
@@ -560,34 +1008,85 @@ def gen_merge(rng):
             ks = [rng.choice(small) for _ in range(rng.randint(1, 5 if nt < 4 else 4))]
             if rng.random() < 0.3:
                 ks.sort(key=repr)
-        ncol = rng.randint(1, 2)
+        ncol = rng.randint(1, 2) if (overlap or rng.random() < 0.93) else 0      # 0: a table that holds the key only
         if suffixes is not None or overlap:
             names = rng.sample(['v', 'w', 'count'], ncol)
         else:
             names = ['t%d_%s' % (t, s) for s in rng.sample(['v', 'w', 'count'], ncol)]
         cols = []
         for n in names:
-            kind = rng.choice(['str', 'int', 'strna'])
+            kind = rng.choice(['str', 'int', 'strna', 'float', 'bool'])
             if kind == 'int':
                 cells = [rng.randint(0, 9) for _ in ks]
             elif kind == 'str':
                 cells = [rng.choice(['p', 'q', 'r']) + str(t) for _ in ks]
+            elif kind == 'float':
+                cells = [rng.choice([0.5, 2.25, None]) for _ in ks]
+            elif kind == 'bool':
+                cells = [rng.random() < 0.5 for _ in ks]
             else:
                 cells = [rng.choice([None, 'z' + str(t)]) for _ in ks]
             cols.append([n, cells])
-        tables.append(dict(keys=ks, columns=cols))
-    how = rng.choice([None, None, 'outer', 'inner'])
-    on = rng.choice(['index', 'k', 'k', 'clonotype'])
-    return dict(tables=tables, on=on, suffixes=suffixes, how=how, overlap=overlap,
-                suffix_container=rng.choice(['list', 'list', 'tuple']) if suffixes else None)
+        tab = dict(keys=ks, columns=cols)
+        if on != 'index':
+            # the table's own index has no say in a join on a column; the key column need not come first
+            r = rng.random()
+            if r < 0.25:
+                tab['own_index'] = rng.sample(range(50), len(ks))
+            elif r < 0.4:
+                tab['own_index'] = [rng.choice(['r', 's']) for _ in ks]
+            if rng.random() < 0.4:
+                tab['keypos'] = rng.randint(0, ncol)
+        elif rng.random() < 0.3:
+            tab['index_name'] = rng.choice(['clonotype', 'k', 'id%d' % t])
+        tables.append(tab)
+    # how='right' only for one or two tables: what a right join of three tables is (the code folds pairwise from the left, so a key the
+    # middle table lacks loses the first table's row) is not something the property text settles
+    how = rng.choice([None, None, None, 'outer', 'inner', 'inner', 'left'] + (['right'] if nt <= 2 else []))
+    case = dict(tables=tables, on=on, suffixes=suffixes, how=how, overlap=overlap,
+                suffix_container=rng.choice(['list', 'list', 'tuple', 'iter', 'dict_keys']) if suffixes else None,
+                container=rng.choice(['list', 'list', 'list', 'tuple', 'iter', 'dict_values']),
+                call=rng.choice(['pos', 'pos', 'kw', 'on_kw']), sort=rng.choice([None, None, None, True, False]),
+                empty_suffixes=rng.choice([None, None, 'list', 'tuple']) if suffixes is None else None)
+    if suffixes and rng.random() < 0.3:
+        # list-like suffixes that have no truth value (D20: `if suffixes:` raised on them; repaired in /repo by ef9126b)
+        case['suffix_container'] = rng.choice(['ndarray', 'Index', 'Series'])
+    if rng.random() < 0.3 and case['container'] in ('list', 'tuple') and case['suffix_container'] in (None, 'list', 'tuple'):
+        # the same table objects merged a second time, differently
+        names = [n for t in tables for n, _ in t['columns']]
+        clash = len(set(names)) < len(names)          # without suffixes clashing names are admissible for two or three tables only
+        case['twice'] = dict(suffixes=None if ((overlap or rng.random() < 0.4) and not (clash and nt > 3)) else rng.sample(sufpool, nt),
+                             how=rng.choice([None, 'outer', 'inner', 'left'] + (['right'] if nt <= 2 else [])), sort=rng.choice([None, True]))
+        if suffixes is None and case['twice']['suffixes'] is None and not overlap and rng.random() < 0.5:
+            case['twice'] = dict(case['twice'], same=True, how=how, sort=case['sort'])    # the very same call once more
+    return case
+
+
+def second_call(case):
+    tw = case['twice']
+    names = [n for t in case['tables'] for n, _ in t['columns']]
+    return dict(case, suffixes=tw['suffixes'], how=tw['how'], sort=tw.get('sort'), twice=None,
+                suffix_container='list' if tw['suffixes'] else None, empty_suffixes=None,
+                overlap=bool(case.get('overlap') or (not tw['suffixes'] and len(set(names)) < len(names))))
 
 
 def merge_frames(case):
+    allkeys = [k for t in case['tables'] for k in t['keys']]
+    keydtype = pd.Index(allkeys).dtype if allkeys else object
     dfs = []
     for t in case['tables']:
-        df = pd.DataFrame({c: v for c, v in t['columns']}, index=pd.Index(t['keys']))
+        index = pd.Index(t['keys']) if t['keys'] else pd.Index([], dtype=keydtype)
+        df = pd.DataFrame({c: (v if len(v) else pd.Series([], dtype=object)) for c, v in t['columns']}, index=index)
         if case['on'] != 'index':
             df = df.rename_axis(case['on']).reset_index()
+            if t.get('keypos'):
+                cols = [c for c in df.columns if c != case['on']]
+                cols.insert(t['keypos'], case['on'])
+                df = df[cols]
+            if t.get('own_index') is not None:
+                df.index = t['own_index']
+        elif t.get('index_name'):
+            df.index.name = t['index_name']
         dfs.append(df)
     return dfs
 
@@ -600,22 +1099,51 @@ def unique_keys(case):
     return all(len(set(map(repr, t['keys']))) == len(t['keys']) for t in case['tables'])
 
 
-def run_merge(case, io):
+def wrap(items, kind):
+    if kind == 'tuple':
+        return tuple(items)
+    if kind == 'iter':
+        return iter(list(items))
+    if kind == 'dict_values':
+        return dict(enumerate(items)).values()
+    if kind == 'dict_keys':
+        return dict.fromkeys(items).keys()
+    if kind == 'ndarray':
+        return np.array(list(items))
+    if kind == 'Index':
+        return pd.Index(list(items))
+    if kind == 'Series':
+        return pd.Series(list(items))
+    return list(items)
+
+
+def run_merge(case, io, dfs=None, holder=None):
     """-> (impl, dict(columns, rows) or None, inputs untouched).  rows: the (key, cells) pairs of the result, SORTED -
-    the row order of a join is not part of the contract, the multiset of rows is."""
-    dfs = merge_frames(case)
+    the row order of a join is not part of the contract, the multiset of rows is.  dfs / holder: table objects (and their
+    container) built by an earlier call and handed over again."""
+    dfs = merge_frames(case) if dfs is None else dfs
+    holder = wrap(dfs, case.get('container')) if holder is None else holder
     snap = [canon_frame(d) for d in dfs]
     kw = {} if case['how'] is None else dict(how=case['how'])
-    if case['suffixes'] is None:
-        impl = call_impl(io.multimerge, dfs, case['on'], **kw)
+    if case.get('sort') is not None:
+        kw['sort'] = case['sort']
+    if case['suffixes']:
+        kw['suffixes'] = wrap(case['suffixes'], case.get('suffix_container'))
+    elif case.get('empty_suffixes'):
+        kw['suffixes'] = wrap([], case['empty_suffixes'])
+    style = case.get('call') or 'pos'
+    if style == 'kw':
+        impl = call_impl(io.multimerge, dfs=holder, on=case['on'], **kw)
+    elif style == 'on_kw':
+        impl = call_impl(io.multimerge, holder, on=case['on'], **kw)
     else:
-        sufs = tuple(case['suffixes']) if case.get('suffix_container') == 'tuple' else list(case['suffixes'])
-        impl = call_impl(io.multimerge, dfs, case['on'], suffixes=sufs, **kw)
-    untouched = snap == [canon_frame(d) for d in dfs]
+        impl = call_impl(io.multimerge, holder, case['on'], **kw)
+    untouched = snap == [canon_frame(d) for d in dfs] and (not isinstance(holder, (list, tuple)) or
+                                                            (len(holder) == len(dfs) and all(a is b for a, b in zip(holder, dfs))))
     if impl[0] != 'ok':
         return impl, None, untouched
     res = impl[1]
-    if case['on'] != 'index' and case['suffixes'] is None:
+    if case['on'] != 'index' and not case['suffixes']:
         if case['on'] not in res.columns:
             return impl, dict(columns=['<key column missing>'], rows=[]), untouched
         keys = res[case['on']].tolist()
@@ -638,19 +1166,34 @@ def check_merge(ctx, ncases):
     for on in ('index', 'k'):
         cases.insert(1, dict(tables=[dict(keys=['a', 'b'], columns=[['count', [1, 2]]]), dict(keys=['b', 'c'], columns=[['count', [3, 4]]])],
                              on=on, suffixes=None, how=None, overlap=True))
+    # tables long enough to cross a block size: unique keys, half of them shared
+    for n in ([300] if ctx.quick else [255, 256, 1000, 1025, 4097]):
+        ka = rng.sample(range(10 * n), n)
+        kb = rng.sample(ka, n // 2) + rng.sample(range(10 * n, 20 * n), n - n // 2)
+        rng.shuffle(kb)
+        cases.append(dict(tables=[dict(keys=ka, columns=[['v', [rng.randint(0, 9) for _ in ka]]]),
+                                  dict(keys=kb, columns=[['w', [rng.choice('pq') for _ in kb]]])],
+                          on=rng.choice(['index', 'k']), suffixes=rng.choice([None, ['a', 'b']]), how=rng.choice([None, 'inner']), long=True))
     merge_cases(ctx, cases)
 
 
+def merge_parts(case):
+    return [case] + ([second_call(case)] if case.get('twice') else [])
+
+
 def merge_requests(case):
-    """oracle requests of one case: the many-to-many model always; the unique-key model of C18_merge_keys as well when
-    every table has unique keys (C18_merge_m_unique says the two coincide there)"""
-    ts = [([c for c, _ in t['columns']],
-           [(canon_key(k), [canon_cell(col[i]) for _, col in t['columns']]) for i, k in enumerate(t['keys'])])
-          for t in case['tables']]
-    args = [case['on'] == 'index', list(case['suffixes'] or []), case['how'] != 'inner', ts]
-    reqs = [('api_c18_multimerge_m', args)]
-    if unique_keys(case):
-        reqs.append(('api_c18_multimerge', args))
+    """oracle requests of one case (and of its second call): the many-to-many model always; the unique-key model of C18_merge_keys as
+    well when every table has unique keys (C18_merge_m_unique says the two coincide there).  how = left / right: the outer join is
+    asked for and restricted to the keys of the first / last table afterwards (merge_verdict)."""
+    reqs = []
+    for part in merge_parts(case):
+        ts = [([c for c, _ in t['columns']],
+               [(canon_key(k), [canon_cell(col[i]) for _, col in t['columns']]) for i, k in enumerate(t['keys'])])
+              for t in part['tables']]
+        args = [part['on'] == 'index', list(part['suffixes'] or []), part['how'] != 'inner', ts]
+        reqs.append(('api_c18_multimerge_m', args))
+        if unique_keys(part) and not part.get('long'):
+            reqs.append(('api_c18_multimerge', args))
     return reqs
 
 
@@ -663,10 +1206,24 @@ def group_counts(rows):
 
 def merge_verdict(case, outs, io):
     """(kind, message) when the case fails, else None.  outs: the oracle answers of merge_requests(case)."""
+    dfs = merge_frames(case)
+    holder = wrap(dfs, case.get('container'))
+    parts = merge_parts(case)
+    per = len(outs) // len(parts)
+    for n, part in enumerate(parts):
+        v = verdict_one(part, outs[n * per:(n + 1) * per], io, dfs, holder)
+        if v:
+            return (v[0], ('second call on the same table objects: ' if n else '') + v[1])
+    return None
+
+
+def verdict_one(case, outs, io, dfs, holder):
     code, mcols, mrows = outs[0]
-    impl, got, untouched = run_merge(case, io)
-    where = 'multimerge(on=%r, suffixes=%r, how=%r) of %d tables with keys %s' % (
-        case['on'], case['suffixes'], case['how'], len(case['tables']), [t['keys'] for t in case['tables']])
+    impl, got, untouched = run_merge(case, io, dfs, holder)
+    extras = ''.join(', %s=%r' % (k, case[k]) for k in ('sort', 'container', 'suffix_container', 'empty_suffixes', 'call') if case.get(k) is not None)
+    where = 'multimerge(on=%r, suffixes=%r, how=%r%s) of %d tables with keys %s' % (
+        case['on'], case['suffixes'], case['how'], extras, len(case['tables']),
+        [t['keys'] if len(t['keys']) <= 12 else '%d keys' % len(t['keys']) for t in case['tables']])
     if len(outs) > 1:
         c2, cols2, rows2 = outs[1]
         if (c2, list(cols2), sorted([[k, list(r)] for k, r in rows2], key=repr)) != \
@@ -676,6 +1233,10 @@ def merge_verdict(case, outs, io):
         return 'property', where + ' raised %s; the property demands the join' % impl[1]
     if code != 0:
         return 'correspondence', where + ': model raises %s but the implementation returned a table' % CODE[code]
+    if case['how'] in ('left', 'right'):
+        # a left (right) join of all tables keeps exactly the keys of the first (last) table; per key the rows are those of the outer join
+        keep = set(canon_key(k) for k in case['tables'][0 if case['how'] == 'left' else -1]['keys'])
+        mrows = [(k, r) for k, r in mrows if k in keep]
     model_rows = sorted([[k, list(r)] for k, r in mrows], key=repr)
     if case.get('overlap'):
         if len(got['columns']) != len(mcols) or not all(g == m or g.startswith(m + '_') for g, m in zip(got['columns'], mcols)):
@@ -685,11 +1246,11 @@ def merge_verdict(case, outs, io):
         return 'property', where + ': columns %s, expected %s' % (got['columns'], list(mcols))
     if got['rows'] != model_rows:
         gc, mc = group_counts(got['rows']), group_counts(model_rows)
-        diff = sorted(set(gc) ^ set(mc))
+        diff = sorted(set(gc) ^ set(mc), key=repr)
         if diff:
-            what = 'keys differ: %s' % diff
+            what = 'keys differ: %s' % diff[:6]
         elif gc != mc:
-            bad = [k for k in sorted(gc) if gc[k] != mc[k]]
+            bad = [k for k in sorted(gc, key=repr) if gc[k] != mc[k]]
             what = ('row counts per key differ (a key must give one row per combination of the tables\' rows for it): %s' %
                     ', '.join('%s: %d rows, expected %d' % (k, gc[k], mc[k]) for k in bad[:3]))
         else:
@@ -711,15 +1272,29 @@ def shrink_merge(ctx, case, io, rounds=25):
                 c2 = dict(c, tables=ts[:i] + ts[i + 1:])
                 if c['suffixes']:
                     c2['suffixes'] = c['suffixes'][:i] + c['suffixes'][i + 1:]
+                if c.get('twice') and c['twice'].get('suffixes'):
+                    c2['twice'] = dict(c['twice'], suffixes=c['twice']['suffixes'][:i] + c['twice']['suffixes'][i + 1:])
                 yield c2
+        if c.get('twice') and c['twice'].get('same'):
+            yield dict(c, twice=None)
+        for k in ('sort', 'empty_suffixes'):
+            if c.get(k) is not None:
+                yield dict(c, **{k: None})
+        for k in ('container', 'suffix_container'):
+            if c.get(k) not in (None, 'list'):
+                yield dict(c, **{k: 'list'})
+        if c.get('call') not in (None, 'pos'):
+            yield dict(c, call='pos')
         for i, t in enumerate(ts):
             if len(t['columns']) > 1:
                 for j in range(len(t['columns'])):
                     yield dict(c, tables=ts[:i] + [dict(t, columns=t['columns'][:j] + t['columns'][j + 1:])] + ts[i + 1:])
             if len(t['keys']) > 1:
                 for r in range(len(t['keys'])):
-                    t2 = dict(keys=t['keys'][:r] + t['keys'][r + 1:],
+                    t2 = dict(t, keys=t['keys'][:r] + t['keys'][r + 1:],
                               columns=[[n, cells[:r] + cells[r + 1:]] for n, cells in t['columns']])
+                    if t.get('own_index') is not None:
+                        t2['own_index'] = t['own_index'][:r] + t['own_index'][r + 1:]
                     yield dict(c, tables=ts[:i] + [t2] + ts[i + 1:])
     best = case
     try:
@@ -778,6 +1353,21 @@ def merge_cases(ctx, cases, shrink=True):
                                      'repeated in two or more tables (many-to-many)' if many else 'repeated in one table'))
         if len(keysets) > 1 and all(t['keys'] == case['tables'][0]['keys'] for t in case['tables']):
             ctx.count('merge:identical key lists')
+        ctx.count('merge:tables handed over as %s' % (case.get('container') or 'list'))
+        ctx.count('merge:arguments %s' % {'kw': 'dfs=, on=', 'on_kw': 'dfs, on='}.get(case.get('call'), 'positional'))
+        if case['suffixes']:
+            ctx.count('merge:suffixes handed over as %s' % (case.get('suffix_container') or 'list'))
+        for flag, label in ((case.get('empty_suffixes'), 'merge:empty suffix %s (= no suffixes)' % case.get('empty_suffixes')),
+                            (case.get('sort') is not None, 'merge:sort=%s' % case.get('sort')),
+                            (case.get('twice'), 'merge:same table objects merged twice'),
+                            (case.get('long'), 'merge:255 keys or more'),
+                            (any(not t['keys'] for t in case['tables']), 'merge:a table without rows'),
+                            (any(not t['columns'] for t in case['tables']), 'merge:a table without value columns'),
+                            (any(t.get('own_index') is not None for t in case['tables']), 'merge:join on a column, tables carry an index of their own'),
+                            (any(t.get('keypos') for t in case['tables']), 'merge:key column not the first column'),
+                            (any(t.get('index_name') for t in case['tables']), 'merge:named index')):
+            if flag:
+                ctx.count(label)
         site = 'io.multimerge[on=%s,suffixes=%s]' % ('index' if case['on'] == 'index' else 'column', bool(case['suffixes']))
         verdict = merge_verdict(case, o, io)
         if verdict and nviol < 3:
@@ -806,7 +1396,10 @@ def run(ctx):
     ctx.exhaustive = True
     ctx.note('all %d strings of length <= %d over {A,C,F,W,X,c} enumerated' % (n_exh, 3 if ctx.quick else 5))
     check_predicates(ctx, objs)
+    check_outside(ctx)
+    check_histories(ctx, [gen_history(rng) for _ in range(60 if ctx.quick else 1500)])
     check_standardize(ctx, 600 if ctx.quick else 15000)
+    check_sequences(ctx, [gen_sequence(rng) for _ in range(80 if ctx.quick else 2000)])
     check_merge(ctx, 600 if ctx.quick else 15000)
     import json, os
     rp = os.path.join(os.path.dirname(os.path.dirname(os.path.abspath(__file__))), 'build', 'regen_status.json')
@@ -836,12 +1429,21 @@ def replay(ctx, obj):
         o = untokens([(a, Fraction(b), c) for a, b, c in r['tokens']])
         n = check_predicates(ctx, [o])
         ctx.note('replayed %s(%s): %s' % (r['func'], r['obj'], 'still fails' if n else 'holds now'))
+    elif kind == 'predicate_outside':
+        n = check_outside(ctx, only=r['obj'])
+        ctx.note('replayed %s(%s): %s' % (r['func'], r['obj'], 'still fails' if n else 'holds now'))
+    elif kind == 'predicate_history':
+        n = check_histories(ctx, [r['history']])
+        ctx.note('replayed history: %s' % ('still fails' if n else 'holds now'))
     elif kind == 'standardize':
         case = r['case']
         viols, before, extra = std_violations(case, io)
         ctx.case(sample=dict(func='standardize_dataframe', columns=before['columns']))
         if viols:
             ctx.violation('property', 'replay still fails: ' + '; '.join(m for _, m in viols[:3]), r, site='io.standardize_dataframe')
+    elif kind == 'standardize_seq':
+        n = check_sequences(ctx, [r['steps']])
+        ctx.note('replayed sequence: %s' % ('still fails' if n else 'holds now'))
     elif kind == 'multimerge':
         merge_cases(ctx, [r['case']], shrink=False)
     else:
